@@ -482,7 +482,9 @@ def check_C03(seed: int, n: int) -> dict:
             seen = set()
             for m, detail in res["fails"]:
                 key = "C03:" + m
-                if tag.startswith("edge:") and not m.startswith(("import-error", "plugin-crash")):
+                if "builtin-name-shadowed" in m:
+                    pass  # one root cause, whichever schema triggered it
+                elif tag.startswith("edge:") and not m.startswith(("import-error", "plugin-crash")):
                     key += ":" + tag[5:]
                 elif tag.startswith("edge:"):
                     key = "C03:" + ":".join(m.split(":")[:2]) + ":" + tag[5:]
@@ -842,14 +844,15 @@ def _c18_job(job) -> dict:
     by_type: Dict[Tuple[str, str], Tuple[List[str], str]] = {}
     all_broken = set(ok_names) <= broken
     for (et, msg), ns in imp.items():
-        lab = "all-configs" if all_broken else config_label(sorted(set(ns)), names)
+        lab = config_label(sorted(set(ns)), names)
         by_type.setdefault((et, lab), (sorted(set(ns)), msg))
     seen_cause = set()
     for (et, lab), (ns, msg) in by_type.items():
         opts = dict(active)[ns[0]]
         cause = attribute_failure(schema, opts, import_failure_predicate(opts, et, False))
         if cause == "builtin-type-names":
-            key = "import-error:builtin-name-shadowed:%s" % lab
+            # the symptom (exception type) differs between configurations; one root cause
+            key = "import-error:builtin-name-shadowed:%s" % ("all-configs" if all_broken else lab)
         else:
             key = "import-error:%s:%s:%s" % (et, lab, cause)
         if key in seen_cause:
@@ -970,7 +973,7 @@ def check_C18(seed: int, n: int) -> dict:
             text = schema.text()
             seen = set()
             for m, detail in res["fails"]:
-                key = "C18:" + m + ((":" + tag[5:]) if tag.startswith("edge:") else "")
+                key = "C18:" + m + ((":" + tag[5:]) if (tag.startswith("edge:") and "builtin-name-shadowed" not in m) else "")
                 if key in seen:
                     continue
                 seen.add(key)
